@@ -216,7 +216,7 @@ def configs(tier):
         out.append((f'roundtrip-M{M}-n{n}', scen_roundtrip, dict(M=M, n=n), {}))
     out.append(('decoder-forms-M4', scen_decoder_forms, dict(M=4, symbols=[2, 0, 3]), {}))
     out.append(('decoder-forms-M16', scen_decoder_forms, dict(M=16, symbols=[9, 15]), {}))
-    hd = [(2, 3), (4, 2), (8, 1)] if q else [(2, 3), (2, 5), (4, 2), (4, 3), (8, 1), (8, 2), (16, 1)]
+    hd = [(2, 3), (4, 2), (8, 1)] if q else [(2, 3), (2, 5), (4, 2), (4, 3), (8, 1)]          # (8,2) and (16,1) have 2^16 slot masks: beyond the path budget (6000), covered by the prefix-count configurations instead
     for M, nsym in hd:
         out.append((f'hdd-M{M}-x{nsym}', scen_hdd, dict(M=M, nsym=nsym), {}))
     for M in ((256,) if q else (32, 64, 128, 256)):
